@@ -51,7 +51,7 @@ def c15(ctx):
                    '(malloc/calloc/realloc/posix_memalign/_mm_malloc/...): on every path from the call, the first use of the '
                    'result other than a comparison or free is dominated by a NULL test whose failing edge ends in m4ri_die. '
                    'E3-census: every other allocation request in the library goes through a wrapper for which E3 holds on all '
-                   'return paths. E3-3p: results of fopen/png_create_* are tested before use. E4: m4ri_die itself cannot return.'),
+                   'return paths. E3-3p: results of fopen/png_create_* are tested before use. E4: m4ri_die itself cannot return. E3 also covers fields of a returned object.'),
       not_decided='zero-size requests (wrappers may return NULL for size 0: stated assumption); failures inside libpng/libc themselves')
 def c20(ctx):
     from . import nullcheck as NC
@@ -318,7 +318,7 @@ def c01(ctx):
                    '(complete label sets, affine members); B5 (for every k in 1..64 the width of table j at the mzd_make_table call equals the width '
                    'mzd_process_rowsN derives for table j, and the row offsets are the prefix sums - all 20 table/width pairs of both echelonisers, '
                    'including the 4-, 5- and 6-table branches with non-zero remainder); D1 (the echeloniser\'s tables are phase-matched to A); C2 (tables written only by '
-                   'mzd_make_table); E1 on the echelonisation functions.'),
+                   'mzd_make_table); E1 on the echelonisation functions. B2r: Duff trip counters are refreshed inside the row loop. CL1 swap rows. W2k: no use of a k-derived local after k changed.'),
       not_decided='rank, RREF uniqueness, pivot search, density switch (value level)')
 def c02(ctx):
     from . import pivot as PV, blockmove as BM2, coords as COk2
@@ -403,7 +403,7 @@ def c04(ctx):
       explanation=('Structural clauses of the readers: I2 (bit depth, channels, colour type, interlacing of a PNG are each tested with a rejecting '
                    'edge that dominates png_read_row); I1 (row and column indices read from a JCF file are bounded below and above by a dying guard '
                    'that dominates mzd_write_bit); B1 (byte packing/unpacking families of writer and reader); E1 on all exits of the three '
-                   'readers/writer (nothing leaks, nothing is freed twice); E3-3p (fopen/png_create_* results tested before use).'),
+                   'readers/writer (nothing leaks, nothing is freed twice); E3-3p (fopen/png_create_* results tested before use). W1: no int shift widened to a word in the readers.'),
       not_decided='round-trip equality, libpng behaviour on corrupted streams (it aborts through png_error: allowed by the property)')
 def c18(ctx):
     from . import io_rules as I, families as B, resources as R, nullcheck as NC, masks as Mk
@@ -564,7 +564,7 @@ INV_FUNCS = {'mzd_inv_m4ri', 'mzd_invert_naive', 'mzd_trtri_upper', 'mzd_trtri_u
                    'built from the diagonal block at r + j*k into U[j]/T[j] (affine periodic call groups). B1/B2 - the Duff device of the table '
                    'builder. F6/F7 - dimension and position typing of the calls in mzd_trtri_upper. E1 - every temporary is released once on all paths. '
                    'C1 on the data movers the recipe is built from (concat, submatrix, copy, set_ui). R1 also bounds the table parameter handed to the '
-                   'elimination (0 or 1..10) by interval analysis.'),
+                   'elimination (0 or 1..10) by interval analysis. W2k (kk and k agree) and S1 (row pointers step by the rowstride).'),
       not_decided='A*B = B*A = I, equality of the naive and the Four-Russians result, that the triangular inverse is the inverse (value level)')
 def c05(ctx):
     from . import masks as M, coords as COk
@@ -595,7 +595,7 @@ SOLVE_FUNCS = {'mzd_solve_left', '_mzd_solve_left', 'mzd_pluq_solve_left', '_mzd
       explanation=('Structural clauses of solving: F1 (argument checks of both wrappers before work); F3a (window bounds are cut at dimensions / '
                    'split points, no off-by-one cuts - all windows of the library); F3c (both constructions of the padding rows of B use '
                    '[A.nrows, B.nrows) x [0, B.ncols)); F6/F7 (symbolic dimension and block-position typing of the forward solve, the '
-                   'consistency update Y2 += H*Y1, the back solve and the permutation applications); E1 on the solve functions.'),
+                   'consistency update Y2 += H*Y1, the back solve and the permutation applications); E1 on the solve functions. F3c: both variants test the padding rows before clearing them. C3 on the zero test. C6f: addmul never overwrites.'),
       not_decided='that the verdict equals the rank test and that A*X = B (value level)')
 def c06(ctx):
     from . import blockmove as BM, pivot as PV, masks as Mk6, purity as Pu6
